@@ -39,9 +39,10 @@ type fnCase struct {
 	F       []string `json:"F"`
 	Custom  bool     `json:"custom"`
 	NilRecv bool     `json:"nilrecv"`
-	Sret    string   `json:"sret"`           // what the stubs return: "val" (value, nil error), "err" (value and error), "zero" (zero values, nil error, nil iterator), "zeroerr" (zero values and an error)
+	Sret    string   `json:"sret"`           // what the stubs return: "val" (value, nil error), "err" (value and error), "zero" (zero values, nil error, nil iterator), "zeroerr" (zero values and an error), "mid" (iterators: item, error, item, item, error; otherwise like "err")
 	ArgSeed int64    `json:"argseed,string"` // seed of the argument and result values
 	Av      []string `json:"av"`             // abstract argument values per parameter after the context (TLC: ArgProfiles), empty: generated
+	Ck      string   `json:"ck"`             // constructor kind: none, tag (a fresh error per call; default when custom), nil, same, byarg, panic
 	Cx      string   `json:"cx"`             // kind of context passed: live (default), cancelled, expired, nil
 	Pred    string   `json:"pred"`           // TLC's predicted outcome kind for exported cases, "-" otherwise (opaque here)
 }
@@ -400,7 +401,7 @@ func fnProgram(ft reflect.Type, field, sret string, rnd *rand.Rand) (outs []refl
 		ot := ft.Out(i)
 		switch {
 		case ot == fnErrorType:
-			if sret == "err" || sret == "zeroerr" {
+			if sret == "err" || sret == "zeroerr" || sret == "mid" {
 				e := &fnErr{tag: fmt.Sprintf("stub#%s-%d", field, rnd.Int63())}
 				outs = append(outs, reflect.ValueOf(e).Convert(ot))
 				errRec = fnErrRec(e)
@@ -419,6 +420,15 @@ func fnProgram(ft reflect.Type, field, sret string, rnd *rand.Rand) (outs []refl
 			if sret == "zeroerr" {
 				e := &fnErr{tag: fmt.Sprintf("stubseq#%s-%d", field, rnd.Int63())}
 				pairs = append(pairs, []reflect.Value{reflect.Zero(yt.In(0)), reflect.ValueOf(e).Convert(fnErrorType)})
+			} else if sret == "mid" {
+				for j := 0; j < 5; j++ {
+					if j == 1 || j == 4 {
+						e := &fnErr{tag: fmt.Sprintf("stubseq#%s-%d-%d", field, j, rnd.Int63())}
+						pairs = append(pairs, []reflect.Value{reflect.Zero(yt.In(0)), reflect.ValueOf(e).Convert(fnErrorType)})
+					} else {
+						pairs = append(pairs, []reflect.Value{fnGen(yt.In(0), rnd, fmt.Sprintf("%s-item%d", field, j)), reflect.Zero(fnErrorType)})
+					}
+				}
 			} else if sret == "err" {
 				pairs = append(pairs, []reflect.Value{fnGen(yt.In(0), rnd, field+"-item0"), reflect.Zero(fnErrorType)})
 				e := &fnErr{tag: fmt.Sprintf("stubseq#%s-%d", field, rnd.Int63())}
@@ -454,14 +464,29 @@ func fnProgram(ft reflect.Type, field, sret string, rnd *rand.Rand) (outs []refl
 
 // fnDrive consumes an iterator: the consumer keeps asking (cont) or declines after the first
 // pair; at most limit pairs are taken.
-func fnDrive(seq reflect.Value, cont bool, limit int) (out []ev) {
+func fnDrive(seq reflect.Value, policy string, limit int) (out []ev) {
 	out = []ev{}
+	seenErr := false
 	y := reflect.MakeFunc(seq.Type().In(0), func(args []reflect.Value) []reflect.Value {
 		if len(out) >= limit {
 			panic(fnStop) // an iterator that does not stop by itself is cut off here
 		}
-		out = append(out, ev{"v": fnRender(args[0]), "e": fnErrRec(fnErrOf(args[1]))})
-		return []reflect.Value{reflect.ValueOf(cont)}
+		err := fnErrOf(args[1])
+		out = append(out, ev{"v": fnRender(args[0]), "e": fnErrRec(err)})
+		more := true
+		switch policy {
+		case "all": // keeps accepting, also after an error
+		case "first": // declines after the first pair
+			more = false
+		case "aterr": // declines at the first pair that carries an error
+			more = err == nil
+		case "aftererr": // declines one pair after the first error
+			more = !seenErr
+			if err != nil {
+				seenErr = true
+			}
+		}
+		return []reflect.Value{reflect.ValueOf(more)}
 	})
 	defer func() {
 		if r := recover(); r != nil && r != any(fnStop) {
@@ -474,11 +499,15 @@ func fnDrive(seq reflect.Value, cont bool, limit int) (out []ev) {
 
 var fnStop = new(int)
 
+// fnSameErr is the one error value the constructor of kind "same" returns every time.
+var fnSameErr = &fnErr{tag: "ctor#same"}
+
 func fnExec(c fnCase, fields []string) ev {
 	run := &fnRun{c: c, calls: []ev{}, ctor: []ev{}, passed: []string{}}
 	rnd := rand.New(rand.NewSource(c.ArgSeed))
 	// the table
 	var tbl *ociregistry.Funcs
+	ckind := "none"
 	prog := ev{"vals": []string{}, "err": fnErrRec(nil), "yields": []ev{}, "seqnil": false}
 	if !c.NilRecv {
 		tbl = &ociregistry.Funcs{}
@@ -512,12 +541,40 @@ func fnExec(c fnCase, fields []string) ev {
 			panic(fmt.Sprintf("harness: case %d names fields Funcs does not have: %v", c.ID, set))
 		}
 		if c.Custom {
+			kind := c.Ck
+			if kind == "" || kind == "none" {
+				kind = "tag"
+			}
+			ckind = kind
+			byarg := map[string]*fnErr{}
 			tbl.NewError = func(ctx context.Context, methodName, repo string) error {
 				run.nctor++
-				e := &fnErr{tag: fmt.Sprintf("ctor#%d-%d", run.nctor, c.ArgSeed)}
-				run.ctor = append(run.ctor, ev{"name": methodName, "repo": fnRender(reflect.ValueOf(repo)),
-					"ctx": fnRender(reflect.ValueOf(&ctx).Elem()), "ret": e.tag})
-				return e
+				rec := ev{"name": methodName, "repo": fnRender(reflect.ValueOf(repo)), "ctx": fnRender(reflect.ValueOf(&ctx).Elem())}
+				run.ctor = append(run.ctor, rec)
+				switch kind {
+				case "nil":
+					rec["ret"] = "nil"
+					return nil
+				case "same":
+					rec["ret"] = fnSameErr.tag
+					return fnSameErr
+				case "byarg":
+					k := methodName + "|" + repo
+					if byarg[k] == nil {
+						byarg[k] = &fnErr{tag: "ctor#by:" + k}
+					}
+					rec["ret"] = byarg[k].tag
+					return byarg[k]
+				case "panic":
+					e := &fnErr{tag: fmt.Sprintf("ctorpanic#%d-%d", run.nctor, c.ArgSeed)}
+					rec["ret"] = e.tag
+					panic(e)
+				case "tag":
+					e := &fnErr{tag: fmt.Sprintf("ctor#%d-%d", run.nctor, c.ArgSeed)}
+					rec["ret"] = e.tag
+					return e
+				}
+				panic(fmt.Sprintf("harness: unknown constructor kind %q", kind))
 			}
 		}
 	}
@@ -533,7 +590,7 @@ func fnExec(c fnCase, fields []string) ev {
 		}
 		custom = tbl.NewError != nil
 	}
-	e := ev{"op": "call", "id": c.ID, "m": c.M, "F": actualF, "custom": custom, "nilrecv": tbl == nil,
+	e := ev{"op": "call", "id": c.ID, "m": c.M, "F": actualF, "custom": custom, "nilrecv": tbl == nil, "ck": ckind,
 		"sret": c.Sret, "argseed": fmt.Sprint(c.ArgSeed), "pred": c.Pred, "prog": prog}
 	// the call
 	av := c.Av
@@ -565,7 +622,7 @@ func fnExec(c fnCase, fields []string) ev {
 	}
 	got := []string{}
 	errRec := fnErrRec(nil)
-	yields, yields1 := []ev{}, []ev{}
+	yields, yields1, yieldsE, yieldsA := []ev{}, []ev{}, []ev{}, []ev{}
 	iter := false
 	seqnil := false
 	var errv error
@@ -583,8 +640,10 @@ func fnExec(c fnCase, fields []string) ev {
 					seqnil = true // a nil iterator is recorded, not ranged over
 					continue
 				}
-				yields = fnDrive(o, true, 5)
-				yields1 = fnDrive(o, false, 5)
+				yields = fnDrive(o, "all", 8)
+				yields1 = fnDrive(o, "first", 8)
+				yieldsE = fnDrive(o, "aterr", 8)
+				yieldsA = fnDrive(o, "aftererr", 8)
 			default:
 				got = append(got, fnRender(o))
 			}
@@ -601,6 +660,10 @@ func fnExec(c fnCase, fields []string) ev {
 	if pan != nil {
 		e["op"] = "panic"
 		e["panic"] = fmt.Sprint(pan)
+		e["pval"] = "-" // identity of the panic value, if it is a value made by this harness
+		if fe, ok := pan.(*fnErr); ok {
+			e["pval"] = fe.tag
+		}
 		e["msg"] = fmt.Sprintf("%s panics: %v (stubs run: %v)", c.M, pan, called)
 		return e
 	}
@@ -610,6 +673,8 @@ func fnExec(c fnCase, fields []string) ev {
 	e["seqnil"] = seqnil
 	e["yields"] = yields
 	e["yields1"] = yields1
+	e["yieldsE"] = yieldsE
+	e["yieldsA"] = yieldsA
 	class := "nil"
 	if iter && len(yields) > 0 {
 		errRec = yields[len(yields)-1]["e"].(ev)
@@ -699,7 +764,7 @@ func fnCmd(args []string) error {
 	}
 	rnd := rand.New(rand.NewSource(*seed))
 	for i := 0; i < *n; i++ {
-		c := fnCase{ID: 1000000 + i, M: methods[rnd.Intn(len(methods))], F: []string{}, Sret: []string{"val", "err", "zero", "zeroerr"}[rnd.Intn(4)],
+		c := fnCase{ID: 1000000 + i, M: methods[rnd.Intn(len(methods))], F: []string{}, Sret: []string{"val", "err", "zero", "zeroerr", "mid"}[rnd.Intn(5)],
 			ArgSeed: rnd.Int63(), Pred: "-"}
 		if rnd.Intn(12) == 0 {
 			c.NilRecv = true
@@ -711,6 +776,9 @@ func fnCmd(args []string) error {
 				}
 			}
 			c.Custom = rnd.Intn(2) == 0
+			if c.Custom {
+				c.Ck = []string{"tag", "tag", "nil", "same", "byarg", "panic"}[rnd.Intn(6)]
+			}
 		}
 		c.Cx = []string{"live", "live", "live", "cancelled", "expired", "nil"}[rnd.Intn(6)]
 		if rnd.Intn(2) == 0 {
